@@ -132,7 +132,7 @@ def run_js_shard(sh, res):
     pol, dlm = sh['cfg']
     syms = field_alphabet(dlm, o1, o2)
     F = list(strings(syms, 2))
-    tables = [[[f]] for f in F] + [[[f, g]] for f in F for g in F[:sh['pair_limit']]] + [[[f], [g, f]] for f in F[:10] for g in F[:10]] + [[[None, f]] for f in F[:10]]
+    tables = [[[f]] for f in F] + [[[f, g]] for f in F for g in F[:sh['pair_limit']]] + [[[f], [g, f]] for f in F[:10] for g in F[:10]] + [[[None, f]] for f in F[:10]] + [[[f, ['x', None]]] for f in F[:6]] + [[[['p', 'q'], f], [[None], f]] for f in F[:4]]
     batch = [{'op': 'write', 'table': t, 'encoding': 'utf-8', 'dlm': dlm, 'policy': pol} for t in tables]
     outs = js.run_batch(batch)
     rbatch, rmeta = [], []
@@ -142,7 +142,7 @@ def run_js_shard(sh, res):
         res.states += 1
         res.transitions += 1
         case = {'lang': 'js', 'table': t, 'dlm': dlm, 'policy': pol}
-        has_none = any(f is None for r in t for f in r)
+        has_none = any(f is None or (isinstance(f, list) and any(x is None for x in f)) for r in t for f in r)
         if 'error' in out:
             if representable(t, dlm, pol):
                 res.violation('js:roundtrip-mismatch', case, 'written', out)
